@@ -57,6 +57,9 @@ func (c *RowCollector) CollectResolvedRow(errChan chan<- error, origChan <-chan 
 		for m := range origChan {
 			if m.ColDiff != nil {
 				c.cd = m.ColDiff
+				// all collected rows follow the merged layout, in which
+				// primary key columns are hoisted to the beginning
+				c.resolvedRows.PK = c.cd.PKIndices()
 			} else if m.Resolved {
 				err := c.SaveResolvedRow(m.PK, m.ResolvedRow)
 				if err != nil {
@@ -97,6 +100,18 @@ func (c *RowCollector) collectRowsThatStayedTheSame() error {
 	var buf []byte
 	var blk [][]string
 	pk := make([]byte, 16)
+	// base rows must follow the merged layout like every other collected row.
+	// They already do unless a base column sits at a different position there
+	// (e.g. primary key hoisted to the beginning, columns reordered).
+	rearrange := false
+	if c.cd != nil {
+		for i, j := range c.cd.BaseIdx {
+			if i != j {
+				rearrange = true
+				break
+			}
+		}
+	}
 	for _, sum := range c.baseT.Blocks {
 		blk, buf, err = objects.GetBlock(c.db, buf, sum)
 		if err != nil {
@@ -115,6 +130,9 @@ func (c *RowCollector) collectRowsThatStayedTheSame() error {
 			}
 			if ok {
 				continue
+			}
+			if rearrange {
+				row = c.cd.RearrangeBaseRow(row)
 			}
 			err = c.resolvedRows.AddRow(row)
 			if err != nil {
